@@ -502,6 +502,65 @@ impl Tbl {
         }
         (out, roots.iter().map(m).collect())
     }
+    /// Tree-unfolding of the graph below `roots`: every OCCURRENCE of a type (and tuple) gets an id
+    /// of its own, so no id is met below two different lists of enclosing types. The meaning of the
+    /// roots is unchanged (`Cycle` depths count enclosing unions, and those are copied with the
+    /// path). `None` when the unfolding would exceed `cap` types. Children come before parents.
+    pub fn unshare(&self, roots: &[usize], cap: usize) -> Option<(Tbl, Vec<usize>)> {
+        fn go(src: &Tbl, out: &mut Tbl, id: usize, cap: usize) -> Option<usize> {
+            if out.types.len() > cap {
+                return None;
+            }
+            let t = match src.types.get(id)? {
+                Type::Union(ids) => {
+                    let mut v = vec![];
+                    for i in ids {
+                        v.push(go(src, out, *i, cap)?);
+                    }
+                    Type::Union(v)
+                }
+                Type::Tuple(t) => {
+                    let info = src.tuples.get(*t)?;
+                    let mut fields = vec![];
+                    for (l, f) in &info.fields {
+                        fields.push((l.clone(), go(src, out, *f, cap)?));
+                    }
+                    out.tuples.push(TupleTypeInfo { name: info.name.clone(), fields });
+                    Type::Tuple(out.tuples.len() - 1)
+                }
+                Type::Partial { name, fields } => {
+                    let mut fs = vec![];
+                    for (l, f) in fields {
+                        fs.push((l.clone(), go(src, out, *f, cap)?));
+                    }
+                    Type::Partial { name: name.clone(), fields: fs }
+                }
+                Type::Callable { parameter, result, receive } => {
+                    let parameter = go(src, out, *parameter, cap)?;
+                    let result = go(src, out, *result, cap)?;
+                    let receive = go(src, out, *receive, cap)?;
+                    Type::Callable { parameter, result, receive }
+                }
+                Type::Process { send, receive } => {
+                    let send = match send { Some(x) => Some(go(src, out, *x, cap)?), None => None };
+                    let receive = match receive { Some(x) => Some(go(src, out, *x, cap)?), None => None };
+                    Type::Process { send, receive }
+                }
+                other => other.clone(),
+            };
+            out.types.push(t);
+            Some(out.types.len() - 1)
+        }
+        let mut out = Tbl::default();
+        for t in self.tuples.iter().take(2) {
+            out.tuples.push(TupleTypeInfo { name: t.name.clone(), fields: vec![] });
+        }
+        let mut img = vec![];
+        for r in roots {
+            img.push(go(self, &mut out, *r, cap)?);
+        }
+        Some((out, img))
+    }
 }
 
 // ---------------------------------------------------------------------------------------------
